@@ -16,16 +16,16 @@ var (
 
 // Protection is what an init segment says about one track.
 type Protection struct {
-	TrackID     uint32
-	EntryType   string // 4cc of the (first) sample entry as written: encv, enca, avc1, ...
-	EntryNode   *boxwalk.Node
-	Sinf        *boxwalk.Node
-	Frma        string
-	Schm        *Schm
-	Tenc        *Tenc
-	TencNode    *boxwalk.Node
-	PiffTenc    bool
-	NumEntries  int
+	TrackID    uint32
+	EntryType  string // 4cc of the (first) sample entry as written: encv, enca, avc1, ...
+	EntryNode  *boxwalk.Node
+	Sinf       *boxwalk.Node
+	Frma       string
+	Schm       *Schm
+	Tenc       *Tenc
+	TencNode   *boxwalk.Node
+	PiffTenc   bool
+	NumEntries int
 }
 
 // TrackID reads track_ID out of a tkhd payload.
